@@ -1296,9 +1296,37 @@ func HandleAppendWithReader(deps ServerDeps, reader io.Reader, conn net.Conn, ta
 		return
 	}
 
+	// Look for literal size indicator {size} or {size+} first: a non-synchronizing
+	// literal (LITERAL+, RFC 7888) follows the command line whether or not the
+	// command is accepted, so every refusal below has to consume it, otherwise the
+	// message data would be read as command lines
+	literalStartIdx := strings.Index(fullLine, "{")
+	literalEndIdx := strings.Index(fullLine, "}")
+	var messageSize int
+	isLiteralPlus := false
+	if literalStartIdx != -1 && literalEndIdx != -1 && literalStartIdx < literalEndIdx {
+		sizeStr := fullLine[literalStartIdx+1 : literalEndIdx]
+		isLiteralPlus = strings.HasSuffix(sizeStr, "+")
+		if isLiteralPlus {
+			sizeStr = strings.TrimSuffix(sizeStr, "+")
+		}
+		_, _ = fmt.Sscanf(sizeStr, "%d", &messageSize)
+	}
+	discardLiteral := func() {
+		if isLiteralPlus && messageSize > 0 {
+			_ = conn.SetReadDeadline(time.Now().Add(5 * time.Minute))
+			if _, err := io.CopyN(io.Discard, reader, int64(messageSize)); err == nil {
+				// the CRLF that ends the command line after the literal
+				_ = conn.SetReadDeadline(time.Now().Add(100 * time.Millisecond))
+				_, _ = reader.Read(make([]byte, 2))
+			}
+		}
+	}
+
 	// Get user database
 	userDB, err := deps.GetUserDB(state.UserID)
 	if err != nil {
+		discardLiteral()
 		deps.SendResponse(conn, fmt.Sprintf("%s NO Database error", tag))
 		return
 	}
@@ -1309,6 +1337,7 @@ func HandleAppendWithReader(deps ServerDeps, reader io.Reader, conn net.Conn, ta
 	// Validate folder exists using the database with new schema
 	mailboxID, err := db.GetMailboxByNamePerUser(userDB, state.UserID, folder)
 	if err != nil {
+		discardLiteral()
 		deps.SendResponse(conn, fmt.Sprintf("%s NO [TRYCREATE] Folder does not exist", tag))
 		return
 	}
@@ -1326,26 +1355,13 @@ func HandleAppendWithReader(deps ServerDeps, reader io.Reader, conn net.Conn, ta
 		}
 	}
 
-	// Look for literal size indicator {size} or {size+}
-	literalStartIdx := strings.Index(fullLine, "{")
-	literalEndIdx := strings.Index(fullLine, "}")
-
 	if literalStartIdx == -1 || literalEndIdx == -1 || literalStartIdx > literalEndIdx {
 		deps.SendResponse(conn, fmt.Sprintf("%s BAD APPEND requires message size", tag))
 		return
 	}
 
-	// Extract the size and check for LITERAL+ (RFC 4466)
-	sizeStr := fullLine[literalStartIdx+1 : literalEndIdx]
-	isLiteralPlus := strings.HasSuffix(sizeStr, "+")
-	if isLiteralPlus {
-		sizeStr = strings.TrimSuffix(sizeStr, "+")
-	}
-
-	var messageSize int
-	_, _ = fmt.Sscanf(sizeStr, "%d", &messageSize)
-
 	if messageSize <= 0 || messageSize > 50*1024*1024 { // Max 50MB
+		discardLiteral()
 		deps.SendResponse(conn, fmt.Sprintf("%s NO Message size invalid or too large", tag))
 		return
 	}
